@@ -47,7 +47,8 @@ def explore(res, tag, seed, n, n_progs):
                   [{k: c[k] for k in ("shape", "index", "sigma", "g", "vjp")} for c in out["cases"][:2]] + out["progs"][:1])
     key = lambda c: len(str(c))  # noqa: E731
     bad = sorted([c for c, k in zip(out["cases"], codes) if k == 2] + [c for c, k in zip(out["progs"], codesp) if k == 2], key=key) \
-        + out["malformed"]["bad"]
+        + out["malformed"]["bad"] + out.get("nested", {}).get("bad", [])
+    res.add_cases(out.get("nested", {}).get("n", 0), [])
     tie = sorted([c for c, k in zip(out["cases"], codes) if k == 1] + [c for c, k in zip(out["progs"], codesp) if k == 1], key=key)
     return bad, tie, None
 
